@@ -22,7 +22,7 @@ func init() {
 		Mutant{Name: "probe-C17b-waiter-registered-at-start-offset", File: "internal/sqlite/engine.go", Rule: "C17-R7",
 			Old: "				offset:   offsetAfterWritePredicted,", New: "				offset:   offsetBeforeWrite,"},
 		Mutant{Name: "probe-C17c-apply-returns-before-storing-offset", File: "internal/sqlite/binlog_engine.go", Rule: "C17-R8",
-			Old: "		err1 := binlogUpdateOffset(conn, newOffset)\n", New: "		if errFromApply != nil {\n			return nil\n		}\n		err1 := binlogUpdateOffset(conn, newOffset)\n"})
+			Old: "		err1 := binlogUpdateOffset(conn, newOffset)\n", New: "		if err != nil && isExpectedError(err) {\n			errToReturn = err\n			return nil\n		}\n		err1 := binlogUpdateOffset(conn, newOffset)\n"})
 	Extend("C19", runC19Probe,
 		Mutant{Name: "probe-C19b-bypass-id-taken-from-existing-mapping", File: "internal/metadata/dbv2.go", Rule: "C19-R5",
 			Old: "		if resp.IsCreated() {\n			created, _ := resp.AsCreated()\n			db.lastMappingIDToInsert = created.Id\n		}",
